@@ -178,10 +178,18 @@ func checkC08(c *Ctx, r *Report) {
 				if !ok || li.F != fr {
 					continue
 				}
-				if b, ok := call.Call.Value.(*ssa.Builtin); !ok || b.Name() != "append" || len(call.Call.Args) != 2 {
+				// the path joins the list: appended to a slice, or written to
+				// the buffer the file is built in
+				var item ssa.Value
+				if b, ok := call.Call.Value.(*ssa.Builtin); ok && b.Name() == "append" && len(call.Call.Args) == 2 {
+					item = call.Call.Args[1]
+				} else if o := calleeObj(call); o != nil && (o.Name() == "WriteString" || o.Name() == "Write") && len(call.Call.Args) >= 1 {
+					item = call.Call.Args[len(call.Call.Args)-1]
+				}
+				if item == nil {
 					continue
 				}
-				p := pa.Of(call.Call.Args[1])
+				p := pa.Of(item)
 				if p.has("Content.Destination") {
 					registered = true
 					if p.has("via:files.NormalizeAbsoluteFilePath") {
@@ -255,6 +263,10 @@ func checkC08(c *Ctx, r *Report) {
 	checkTypeStable(c, r)
 	checkCopiesKeepType(c, r)
 	checkAlwaysPlans(c, r)
+	r.Rules = append(r.Rules, "R-own-packager a packager compares the entry tag only with its own name", "R-ghost-nosource the planner leaves a ghost entry's empty source empty", "R-rpmflag-row the rpm file-type flag is chosen per entry")
+	checkOwnPackagerName(c, r)
+	checkEmptySourceKept(c, r, "R-ghost-nosource")
+	checkFlagNotCarried(c, r)
 	// a declared entry is never dropped in favour of an earlier one without
 	// the collision being reported (rule of C05): the typed entry of an
 	// overlapping pair would otherwise lose its registration silently
@@ -390,6 +402,21 @@ func checkC08(c *Ctx, r *Report) {
 							if !isNamed(st.Val.Type(), rpmpackPath, "FileType") {
 								okT = false
 								why = fmt.Sprintf("the Type stored at %s is not a FileType value", c.instrPos(st))
+							}
+							// ... and it is the flag chosen for the entry's type as it
+							// was handed in: a parameter, a constant, or a module
+							// function's result - not a value recombined here from
+							// something else about the entry (its destination, ...)
+							switch sv := stripConv(h.valueOf(st)).(type) {
+							case *ssa.Parameter, *ssa.Const:
+							case *ssa.Call:
+								if sc := sv.Call.StaticCallee(); sc == nil || !c.isModuleFunc(sc) {
+									okT = false
+									why = fmt.Sprintf("the Type stored at %s is computed by a call outside the module", c.instrPos(st))
+								}
+							default:
+								okT = false
+								why = fmt.Sprintf("the Type stored at %s is %s - recombined in the record builder, not the flag chosen for the entry's type: entries get flags their type does not state (a ghost with an extra flag is shipped in the payload)", c.instrPos(st), shorten(valueExpr(c, sv, 0), 80))
 							}
 						}
 					}
@@ -664,12 +691,42 @@ func checkPreparedInfo(c *Ctx, r *Report) {
 				prep = call
 			}
 		})
+		var pArg ssa.Value
+		if prep != nil {
+			pArg = prep.Call.Args[0]
+		} else {
+			// the preparation lives in a helper of Package's: the call to the
+			// helper is the prepare step, the argument bound to the parameter
+			// the helper prepares is the prepared Info
+			forEachInstr(pk.Package, func(in ssa.Instruction) {
+				call, ok := in.(*ssa.Call)
+				if !ok || prep != nil {
+					return
+				}
+				h := call.Call.StaticCallee()
+				if h == nil || !c.isModuleFunc(h) || len(h.Blocks) == 0 {
+					return
+				}
+				forEachInstr(h, func(i2 ssa.Instruction) {
+					inner, ok := i2.(*ssa.Call)
+					if !ok || inner.Call.StaticCallee() != np || prep != nil {
+						return
+					}
+					v := throughIdentity(c, chaseCell(inner.Call.Args[0], 0))
+					for i, q := range h.Params {
+						if ssa.Value(q) == v && i < len(call.Call.Args) {
+							prep, pArg = call, call.Call.Args[i]
+						}
+					}
+				})
+			})
+		}
 		if prep == nil {
-			r.Unresolved(pk.Format+" prepare call", "Package does not call nfpm.PrepareForPackager directly")
+			r.Unresolved(pk.Format+" prepare call", "Package does not call nfpm.PrepareForPackager, directly or in a helper it hands its Info to")
 			continue
 		}
 		n++
-		P := throughIdentity(c, prep.Call.Args[0])
+		P := throughIdentity(c, pArg)
 		same := func(v ssa.Value) bool {
 			v = throughIdentity(c, resolveUp(c, pa, chaseCell(v, 0)))
 			if v == P {
@@ -1049,4 +1106,176 @@ func checkAlwaysPlans(c *Ctx, r *Report) {
 	})
 	r.Check(must, "R-prepare-always", "nfpm.PrepareForPackager plans the contents on every successful call", c.pos(prep.Pos()),
 		"with name, architecture and version set some path returns success without calling the planner: the contents would keep whatever an earlier preparation (for another format) made of them")
+}
+
+// checkOwnPackagerName (R-own-packager): where a packager compares an entry's
+// packager tag with a constant, the constant is that packager's own name (a
+// guard copied from another packager drops exactly the entries addressed to
+// this one).
+func checkOwnPackagerName(c *Ctx, r *Report) {
+	pa := newProv(c)
+	n := 0
+	for _, pk := range c.Packagers {
+		if pk.Format == "" {
+			continue
+		}
+		for _, fn := range c.ModFuncs {
+			if c.funcPkgPath(fn) != pk.PkgPath {
+				continue
+			}
+			forEachInstr(fn, func(in ssa.Instruction) {
+				bo, ok := in.(*ssa.BinOp)
+				if !ok || (bo.Op != token.EQL && bo.Op != token.NEQ) {
+					return
+				}
+				var k *ssa.Const
+				var v ssa.Value
+				if kk, isK := bo.Y.(*ssa.Const); isK {
+					k, v = kk, bo.X
+				} else if kk, isK := bo.X.(*ssa.Const); isK {
+					k, v = kk, bo.Y
+				}
+				if k == nil || !isConstString(k) || constString(k) == "" || !pa.Of(v).has("Content.Packager") {
+					return
+				}
+				n++
+				r.Check(constString(k) == pk.Format, "R-own-packager", fmt.Sprintf("%s: packager tag compared with the packager's own name in %s", pk.Format, c.funcKey(fn)), c.instrPos(bo),
+					fmt.Sprintf("an entry's packager tag is compared with %q in the %s packager: entries addressed to %s itself would be treated as foreign", constString(k), pk.Format, pk.Format))
+			})
+		}
+	}
+	r.Count("packager_tag_comparisons_in_packagers", n)
+}
+
+// checkFlagNotCarried (R-rpmflag-row): the file-type flag handed to an rpm
+// record builder is chosen for the entry at hand - not a variable that keeps
+// the flag of an earlier entry when no case matches.
+func checkFlagNotCarried(c *Ctx, r *Report) {
+	pk := c.PackagerByFormat("rpm")
+	if pk == nil {
+		return
+	}
+	n := 0
+	for _, fn := range sortedFuncs(c, c.Reach(pk.Package)) {
+		if c.funcPkgPath(fn) != pk.PkgPath {
+			continue
+		}
+		forEachInstr(fn, func(in ssa.Instruction) {
+			call, ok := in.(*ssa.Call)
+			if !ok || call.Call.StaticCallee() == nil || !c.isModuleFunc(call.Call.StaticCallee()) {
+				return
+			}
+			for _, a := range call.Call.Args {
+				if !isNamed(a.Type(), rpmpackPath, "FileType") {
+					continue
+				}
+				n++
+				phi := carriedPhi(a)
+				why := "chosen in this iteration"
+				if phi != nil {
+					why = "the flag is the loop-carried variable " + shorten(valueExpr(c, phi, 0), 60) + ": an entry for which no case sets it keeps the flag of the entry before it (a plain file after a config file becomes %config)"
+				}
+				r.Check(phi == nil, "R-rpmflag-row", fmt.Sprintf("rpm: file-type flag#%d handed to %s is chosen for the entry at hand", n, call.Call.StaticCallee().Name()), c.instrPos(call), why)
+			}
+		})
+	}
+	r.Floor("R-rpmflag-row", n, 1)
+}
+
+// checkEmptySourceKept (R-ghost-nosource): a ghost entry has no source. The
+// planner evaluated for a ghost entry does not rewrite that empty source with
+// a cleaning function - filepath.Clean("") is "." - unless the store is on the
+// non-empty edge of a test of the source: contents that were prepared before
+// (an Info packaged twice, PrepareForPackager called ahead of Package) would
+// otherwise be stat'ed at "." and the ghost would take the working
+// directory's mode instead of the 0644 default.
+func checkEmptySourceKept(c *Ctx, r *Report, rule string) {
+	var prep *ssa.Function
+	if pkg := c.Pkg("files"); pkg != nil {
+		prep = pkg.Func("PrepareForPackager")
+	}
+	if prep == nil {
+		r.Unresolved("files.PrepareForPackager", "not found")
+		return
+	}
+	pa := newProv(c)
+	ev := cellEvaluator(c, typeGhost, nil)
+	fr := ev.Explore(prep, make([]AV, len(prep.Params)))
+	if fr == nil {
+		r.Unresolved("files.PrepareForPackager", "not evaluated")
+		return
+	}
+	// the same evaluation with the source known to be empty: a rewrite that is
+	// dead there is guarded, whatever the shape of the guard
+	evE := cellEvaluator(c, typeGhost, nil)
+	if o := evE.Defaults[c.contentPtrKey()]; o != nil {
+		o.Fields["Source"] = cStr("")
+	}
+	frE := evE.Explore(prep, make([]AV, len(prep.Params)))
+	liveEmpty := map[ssa.Instruction]bool{}
+	if frE != nil {
+		for _, li := range frE.LiveInstrs() {
+			liveEmpty[li.In] = true
+		}
+	}
+	n := 0
+	for _, li := range fr.LiveInstrs() {
+		st, ok := li.In.(*ssa.Store)
+		if !ok {
+			continue
+		}
+		fa, ok := st.Addr.(*ssa.FieldAddr)
+		if !ok || !isContentPtr(fa.X.Type()) || fieldName(fa.X.Type(), fa.Field) != "Source" {
+			continue
+		}
+		pv := pa.Of(st.Val)
+		if !pv.has("call:path/filepath.Clean") && !pv.has("call:path.Clean") {
+			continue
+		}
+		n++
+		guarded := frE != nil && !liveEmpty[st]
+		if !guarded && li.F != nil {
+			// every edge that is live for a ghost entry and leads to the store
+			// comes from the non-empty edge of a test of the source (edges that
+			// are dead for a ghost - "or it is a directory" - do not count)
+			isGuardEdge := func(p, b *ssa.BasicBlock) bool {
+				ifi, isIf := p.Instrs[len(p.Instrs)-1].(*ssa.If)
+				if !isIf {
+					return false
+				}
+				bo, isBo := ifi.Cond.(*ssa.BinOp)
+				if !isBo {
+					return false
+				}
+				k, isK := bo.Y.(*ssa.Const)
+				if !isK || !isConstString(k) || constString(k) != "" || !pa.Of(bo.X).has("Content.Source") {
+					return false
+				}
+				return bo.Op == token.NEQ && p.Succs[0] == b && p.Succs[1] != b || bo.Op == token.EQL && p.Succs[1] == b && p.Succs[0] != b
+			}
+			seen := map[*ssa.BasicBlock]bool{}
+			var guardedBlock func(b *ssa.BasicBlock, d int) bool
+			guardedBlock = func(b *ssa.BasicBlock, d int) bool {
+				if d > 6 || seen[b] || len(b.Preds) == 0 {
+					return false
+				}
+				seen[b] = true
+				nLive := 0
+				for _, p := range b.Preds {
+					if !li.F.liveEdge[[2]int{p.Index, b.Index}] {
+						continue
+					}
+					nLive++
+					if !isGuardEdge(p, b) && !guardedBlock(p, d+1) {
+						return false
+					}
+				}
+				return nLive > 0
+			}
+			guarded = guardedBlock(st.Block(), 0)
+		}
+		r.Check(guarded, rule, fmt.Sprintf("files: source rewrite#%d live for a ghost entry in %s is on the non-empty edge", n, c.funcKey(st.Parent())), c.instrPos(st),
+			"for a ghost entry (which has no source) the planner stores the cleaned source unconditionally: \"\" becomes \".\", and the next preparation of the same contents stats the working directory - the ghost is recorded with its mode (a directory's) instead of the default")
+	}
+	r.Floor(rule, n, 1)
 }
